@@ -28,6 +28,7 @@ fn conftest_versions(tag: &str, with_import: bool) -> Vec<(&'static str, String,
         ("renamed-hx", "import pytest\n\n@pytest.fixture\ndef hx():\n    return 1\n".to_string(), true),
         ("fx-shifted", format!("import pytest\n\n\n\n@pytest.fixture\ndef fx():\n    \"\"\"{tag} fx\"\"\"\n    return 1\n"), true),
         ("broken", "import pytest\n\n@pytest.fixture\ndef fx(:\n    return 1\n".to_string(), false),
+        ("comment-only", "# everything commented out\n# import pytest\n".to_string(), true),
         ("fx-twice", format!("import pytest\n\n@pytest.fixture\ndef fx():\n    \"\"\"{tag} first\"\"\"\n    return 1\n\n@pytest.fixture\ndef fx():\n    \"\"\"{tag} second\"\"\"\n    return 2\n"), true),
     ];
     if with_import {
@@ -49,6 +50,7 @@ pub fn files(thorough: bool) -> Vec<FileVersions> {
                 ("undeclared-fx", "import pytest\n\ndef test_one():\n    assert fx\n    hx.x\n".to_string(), true),
                 ("uses-fx-shifted", "import pytest\n\n\n@pytest.fixture\ndef lx(fx):\n    return fx\n\ndef test_one(fx, lx):\n    pass\n".to_string(), true),
                 ("broken", "import pytest\n\ndef test_one(fx:\n    pass\n".to_string(), false),
+                ("empty", "".to_string(), true),
                 ("lx-twice", "import pytest\n\n@pytest.fixture\ndef lx():\n    return 1\n\ndef test_one(lx, fx):\n    pass\n\n@pytest.fixture\ndef lx(fx):\n    return 2\n".to_string(), true),
             ],
         },
